@@ -18,10 +18,29 @@ def strat_i64(rng):
     if r < 0.3:
         k = rng.randint(1, 9 * 10**9)
         return k * 10**9 // rng.choice([1, 10, 1000, 10**6]) * rng.choice([1, -1])
+    if r < 0.42:
+        # neighbours of the midpoint between two adjacent binary32 values: the conversion must round the i64 once
+        # (an i64 -> f64 -> f32 detour rounds n = midpoint +- 1 to the midpoint first, then to even)
+        bits = rng.randint(26, 63)
+        k = bits - 24
+        m = rng.getrandbits(24) | (1 << 23)
+        v = (m << k) + (1 << (k - 1)) + rng.choice([-1, 1, -1, 1, 0, -2, 2, -(1 << max(0, k - 30)), (1 << max(0, k - 30))])
+        v = min(v, I64_MAX)
+        return v if rng.random() < 0.5 else -v
     bits = rng.randint(1, 62)
     v = rng.getrandbits(bits) | (1 << (bits - 1))
     if rng.random() < 0.2:
         v = (1 << bits) + rng.randint(-2, 2)
+    return v if rng.random() < 0.5 else -v
+
+
+def dr_witness(rng):
+    """n = midpoint between two adjacent binary32 values +- 1, with |n| >= 2^53: a conversion that goes through f64 rounds it
+    to the midpoint first (the 1 is below f64's precision) and then to even; the single rounding the crate documents does not"""
+    bits = rng.randint(55, 63)
+    k = bits - 24
+    m = rng.getrandbits(24) | (1 << 23)
+    v = min((m << k) + (1 << (k - 1)) + rng.choice([-1, 1]), I64_MAX)
     return v if rng.random() < 0.5 else -v
 
 
@@ -163,6 +182,18 @@ def gen(rng, tier, cfg):
                 add(Op(o, q, t), "QT%d" % o); add(Op(o, q, d), "QD%d" % o)
             for o in range(1, 5):
                 add(Op(o, t, q), "TQ%d" % o); add(Op(o, d, q), "DQ%d" % o)
+    # every mixed form with an integer operand at a double-rounding witness (units chosen so that + and - do not panic)
+    for _ in range(60 if not big else 2000):
+        n = dr_witness(rng)
+        for (lit, u, nm) in ((vT(n), (0, 1), "T"), (vD(n), (0, 0), "D")):
+            for o in range(1, 9):
+                q = Lit(vQ(rand_f32_bits(rng), *(u if o in (1, 2, 5, 6) else rng.choice(units))))
+                add(Op(o, q, Lit(lit)), "Q%s%d/dr" % (nm, o))
+                if o <= 4:
+                    add(Op(o, Lit(lit), q), "%sQ%d/dr" % (nm, o))
+        add(Op(20, Lit(vT(n))), "q_from_time/dr"); add(Op(20, Lit(vD(n))), "q_from_dint/dr")
+        add(Op(3, Lit(vT(n)), Lit(vT(dr_witness(rng)))), "TT3/dr"); add(Op(4, Lit(vT(n)), Lit(vT(dr_witness(rng)))), "TT4/dr")
+        add(Op(4, Lit(vD(n)), Lit(vT(dr_witness(rng)))), "DT4/dr")
     # operands that cancel or coincide exactly (results +-0, +-1): the sign of a zero is part of the exact f32 result
     for n_ in [0, 1, -1, 2, -2, 5, 1000000000, -1000000000, 3000000000, 500000000, -250000000, 16777216, 123456789, -987654321, 2147483648, -2147483648]:
         qt = f32_div_bits(f32_of_int_bits(n_), f2b(1e9)); qd = f32_of_int_bits(n_)
@@ -228,6 +259,6 @@ def run(chk, replay=None):
         chk.violation("proof obligations of C18 no longer check: " + "; ".join(proof["problems"])[:1500],
                       {"theorem_file": "coq/theories/Properties/C18.v", "problems": proof["problems"]}, False)
     return chk.finish(proof,
-        rule="i64 values stratified over magnitudes 0..2^63 and signs, neighbours of 2^24, 2^53, k*1e9, extremes; f32 seconds by exponent strata below 9e9 plus out-of-range/saturating values; all 49 units; every operator form of the three tables; distinct = distinct (form, model result)",
+        rule="i64 values stratified over magnitudes 0..2^63 and signs, neighbours of 2^24, 2^53, k*1e9, extremes, neighbours of binary32 rounding midpoints at every magnitude (double-rounding witnesses); f32 seconds by exponent strata below 9e9 plus out-of-range/saturating values; all 49 units; every operator form of the three tables; distinct = distinct (form, model result)",
         checker_cmd="make -C coq ; coqc Properties/C18.v (and C18B.v when present)",
         trusted=std_trusted())
